@@ -100,7 +100,12 @@ def reference_faults(msg, rng):
         wrong = [k for k in by_kind if k not in ok]
         if wrong:
             k = rng.choice(sorted(wrong))
-            out.append(("illtyped:%s->%s" % (name, k), put(msg, path, rng.choice(by_kind[k])), "DeserializationError"))
+            bad = rng.choice(by_kind[k])
+            out.append(("illtyped:%s->%s" % (name, k), put(msg, path, bad), "DeserializationError"))
+            if name.startswith("edge-"):
+                # ... and the same with the UUID also listed among the CFG vertices (a reader that trusts the redundant list)
+                out.append(("illtyped-listed-vertex:%s->%s" % (name, k), put(put(msg, path, bad), (4,), list(msg[4]) + [bad]), "DeserializationError"))
+                out.append(("dangling-listed-vertex:" + name, put(put(msg, path, missing), (4,), [missing] + list(msg[4])), "DeserializationError"))
         for n in (0, 15, 17):
             if n == 0 and name == "entry_point":
                 continue            # empty entry_point means "no entry point"
